@@ -144,6 +144,8 @@ def val_match(node, a):
 def item_match(node, a):
     if 'pos' in node:
         return lst(node, lambda n: item_match(n, a))
+    if item_const_true(node):
+        return True                  # `*` / `=` / `*=*`: any argument, of any kind
     nm = wl_match(node['name'], a['name'] if a['name'] is not None else '')
     if nm is False:
         return False
@@ -165,10 +167,18 @@ def item_const_true(node):
 
 
 def args_match(node, args):
+    """every positive item satisfied by some argument, no negative item satisfied by any argument.  A constant-true
+    item (finding K1: `*`, `=`, `[*]`) is satisfied by any argument; whether it needs one when there is none is the open
+    question, so it is unspecified only for an empty argument list."""
     if node is None:
         return True
-    pos = k_all(k_any(item_match(it, a) for a in args) for it in node['pos'])
-    neg = k_any(k_any(item_match(it, a) for a in args) for it in node['neg'])
+
+    def sat(it):
+        if item_const_true(it):
+            return True if args else None
+        return k_any(item_match(it, a) for a in args)
+    pos = k_all(sat(it) for it in node['pos'])
+    neg = k_any(sat(it) for it in node['neg'])
     return k_and(pos, k_not(neg))
 
 
@@ -191,8 +201,6 @@ def pattern_match(p, m):
     c = wl_match(p['conn'], m['conn'])
     if c is False:
         return False
-    if has_const_true_item(p['args']):
-        return None
     real = k_and(ospec_match(p['obj'], m['target']), k_and(wl_match(p['name'], m['name']), args_match(p['args'], m['args'])))
     pseudo = False
     noargs = args_match(p['args'], [])
